@@ -23,6 +23,14 @@ def merge_sched(parts):
         if p is None:
             lost += 1
             continue
+        if p.get("_crashed"):
+            import signal as _signal
+            try:
+                name = _signal.Signals(p["_crashed"]).name
+            except ValueError:
+                name = "signal %d" % p["_crashed"]
+            viol.append({"sig": "process-killed-by-" + name, "detail": "the process running the real reader/writer (%s ...) was killed by %s: with a memory-mapped segment this is what clients suffer when the file is truncated or the mapping misused" % (p["_cmd"], name), "replay": ""})
+            continue
         for k in SUM_KEYS:
             out[k] += p.get(k, 0)
         out["max_accesses_per_call"] = max(out["max_accesses_per_call"], p.get("max_accesses_per_call", 0))
@@ -36,6 +44,20 @@ def merge_sched(parts):
     out["distinct_schedules"] = union_hashes(hashes)
     out["shards_lost"] = lost
     return out, viol, samples
+
+
+def crash_violations(parts):
+    """Violations for shards that were killed by a signal (see common.run_shards)."""
+    import signal as _signal
+    out = []
+    for p in parts:
+        if p and p.get("_crashed"):
+            try:
+                name = _signal.Signals(p["_crashed"]).name
+            except ValueError:
+                name = "signal %d" % p["_crashed"]
+            out.append({"sig": "process-killed-by-" + name, "detail": "the process running the code under test (%s ...) was killed by %s" % (p["_cmd"], name), "replay": ""})
+    return out
 
 
 def shmsim(ctx):
@@ -187,7 +209,7 @@ def run_proc(ctx, seconds, nreaders=3, ngroups=4):
             readers = [subprocess.Popen([binary, "reader", path, "%d.%d" % (g, r)], stdin=subprocess.PIPE, stdout=subprocess.PIPE, text=True, bufsize=1) for r in range(nreaders)]
             groups.append({"path": path, "readers": readers, "writer": None, "last_answers": [0] * nreaders})
         t_end = time.time() + seconds
-        while time.time() < t_end:
+        while time.time() < t_end and len(viol) < 20:
             for grp in groups:
                 if grp["writer"] is None:
                     grp["writer"] = subprocess.Popen([binary, "writer", grp["path"]], stdout=subprocess.DEVNULL, stderr=subprocess.DEVNULL)
@@ -213,10 +235,17 @@ def run_proc(ctx, seconds, nreaders=3, ngroups=4):
                     idx = (words[0] - 1) // 8 if words[0] else 0
                     complete = gen != 0 and gen % 2 == 0 and all(words[k] == 8 * idx + k + 1 for k in range(5))
                     # Quiescent: nobody writes. Ask every reader for one snapshot.
+                    dead = False
                     for k, r in enumerate(grp["readers"]):
-                        r.stdin.write("Q\n")
-                        r.stdin.flush()
+                        try:
+                            r.stdin.write("Q\n")
+                            r.stdin.flush()
+                        except (BrokenPipeError, OSError):
+                            dead = True
                     for k, r in enumerate(grp["readers"]):
+                        if r.poll() is not None or dead and r.poll() is not None:
+                            viol.append({"sig": "reader-process-died", "detail": "reader process %d of group %s died with status %s while attached (a client killed by the daemon's handling of the segment, e.g. SIGBUS after a truncation)" % (k, grp["path"], r.returncode), "replay": ""})
+                            continue
                         line = r.stdout.readline().strip()
                         agg["quiescent_checks"] += 1
                         if not line.startswith("A "):
@@ -243,8 +272,11 @@ def run_proc(ctx, seconds, nreaders=3, ngroups=4):
                 grp["writer"].send_signal(signal.SIGKILL)
                 grp["writer"].wait()
             for r in grp["readers"]:
-                r.stdin.write("E\n")
-                r.stdin.flush()
+                try:
+                    r.stdin.write("E\n")
+                    r.stdin.flush()
+                except (BrokenPipeError, OSError):
+                    pass
             for r in grp["readers"]:
                 try:
                     out, _ = r.communicate(timeout=20)
@@ -261,7 +293,7 @@ def run_proc(ctx, seconds, nreaders=3, ngroups=4):
                         for v in j["violations"]:
                             viol.append({"sig": "proc-" + v.split(":")[0].split()[1], "detail": v, "replay": ""})
                 if r.returncode != 0:
-                    viol.append({"sig": "reader-crashed", "detail": "a reader process exited with %s" % r.returncode, "replay": ""})
+                    viol.append({"sig": "reader-process-died", "detail": "a reader process exited with status %s" % r.returncode, "replay": ""})
     finally:
         import shutil
         for grp in groups:
